@@ -99,7 +99,8 @@ Lemma nth_insert_at {A} (l : list A) i x j d : i <= length l ->
   nth j (insert_at l i x) d = if Nat.ltb j i then nth j l d else if Nat.eqb j i then x else nth (j - 1) l d.
 Proof.
   revert l j; induction i as [|i IH]; intros l j H.
-  - cbn [insert_at]. destruct j as [|j]; [reflexivity|]. replace (S j - 1) with j by lia. reflexivity.
+  - assert (insert_at l 0 x = x :: l) as -> by (destruct l; reflexivity).
+    destruct j as [|j]; [reflexivity|]. replace (S j - 1) with j by lia. reflexivity.
   - destruct l as [|y l]; cbn [length] in H; [lia|]. cbn [insert_at]. destruct j as [|j]; [reflexivity|].
     cbn [nth]. rewrite IH by lia. change (Nat.ltb (S j) (S i)) with (Nat.ltb j i). change (Nat.eqb (S j) (S i)) with (Nat.eqb j i).
     destruct (Nat.ltb j i) eqn:E1; auto. destruct (Nat.eqb j i) eqn:E2; auto.
@@ -221,4 +222,592 @@ Qed.
 Lemma cnt_removelast (l : list N) x : l <> [] -> cnt l x = cnt (removelast l) x + cnt [last l 0%N] x.
 Proof.
   intros H. rewrite (app_removelast_last 0%N H) at 1. now rewrite count_occ_app.
+Qed.
+
+(** ** mem / remove1 *)
+Lemma mem_In x l : mem x l = true <-> In x l.
+Proof.
+  induction l as [|y r IH]; cbn [mem In]; [intuition discriminate|].
+  rewrite orb_true_iff, N.eqb_eq, IH. intuition.
+Qed.
+
+Lemma remove1_In_weak x y l : In y (remove1 x l) -> In y l.
+Proof. induction l as [|z r IH]; cbn [remove1 In]; auto. destruct (N.eqb z x); cbn [In]; intuition. Qed.
+
+Lemma cnt_remove1 x l y : In x l -> cnt l y = cnt [x] y + cnt (remove1 x l) y.
+Proof.
+  induction l as [|z r IH]; cbn [remove1 In]; [tauto|]. intros H.
+  destruct (N.eqb z x) eqn:E.
+  - apply N.eqb_eq in E. subst. apply cnt_cons.
+  - apply N.eqb_neq in E. destruct H as [H|H]; [congruence|].
+    rewrite (cnt_cons z r), (cnt_cons z (remove1 x r)), IH by exact H. lia.
+Qed.
+
+Lemma remove1_In_nd x y l : NoDup l -> In x l -> (In y (remove1 x l) <-> In y l /\ y <> x).
+Proof.
+  intros Hn Hx. pose proof (cnt_remove1 x l y Hx) as Hc. pose proof (cnt_NoDup_le l y Hn) as Hl.
+  rewrite !cnt_In. destruct (N.eq_dec x y) as [->|Hne].
+  - rewrite cnt_one_eq in Hc. split; [lia|tauto].
+  - rewrite (cnt_one_ne _ _ Hne) in Hc. split; [intros; split; [lia|congruence] | lia].
+Qed.
+
+(** ** worlds *)
+Definition resw {A} (r : res A) : world := match r with Done _ w => w | Pan w => w end.
+
+(** the part of [VInv] that speaks about the world alone; the last clause is the strengthening needed to make
+    [vi_drops] inductive (a dropped identity is never handed out again) *)
+Record WInv (w : world) : Prop := {
+  wi_bad : badw w = false;
+  wi_nd : NoDup (live w);
+  wi_fresh : forall id, In id (live w) -> (id < len (vals w))%N;
+  wi_dnd : NoDup (drop_ids (log w));
+  wi_dead : forall id, In id (drop_ids (log w)) -> ~ In id (live w);
+  wi_dfresh : forall id, In id (drop_ids (log w)) -> (id < len (vals w))%N
+}.
+
+(** [w'] has the same observable core as [w] *)
+Definition wsame (w w' : world) : Prop :=
+  live w' = live w /\ vals w' = vals w /\ badw w' = badw w /\ drop_ids (log w') = drop_ids (log w) /\ pan w' = pan w
+  /\ wa w' = wa w /\ wf w' = wf w.
+(** [w'] is [w] plus the new identity [nid] of value [x] *)
+Definition wborn (w w' : world) (nid x : N) : Prop :=
+  nid = len (vals w) /\ live w' = nid :: live w /\ vals w' = vals w ++ [x] /\ badw w' = badw w
+  /\ drop_ids (log w') = drop_ids (log w) /\ pan w' = pan w /\ wa w' = wa w /\ wf w' = wf w.
+(** [w'] is [w] after the destructor of the live identity [id] ran *)
+Definition wdied (w w' : world) (id : N) : Prop :=
+  live w' = remove1 id (live w) /\ vals w' = vals w /\ badw w' = badw w
+  /\ drop_ids (log w') = id :: drop_ids (log w) /\ pan w' = pan w /\ wa w' = wa w /\ wf w' = wf w.
+
+Lemma wsame_refl w : wsame w w.
+Proof. unfold wsame; tauto. Qed.
+Lemma wsame_trans w1 w2 w3 : wsame w1 w2 -> wsame w2 w3 -> wsame w1 w3.
+Proof. unfold wsame. intros (a&b&c&d&e&f&g) (a'&b'&c'&d'&e'&f'&g'). repeat split; congruence. Qed.
+
+Lemma WInv_same w w' : WInv w -> wsame w w' -> WInv w'.
+Proof.
+  intros [A B C D E F] (Hl & Hv & Hb & Hd & _). split; rewrite ?Hl, ?Hv, ?Hb, ?Hd; auto.
+Qed.
+
+Lemma WInv_born w w' nid x : WInv w -> wborn w w' nid x -> WInv w' /\ ~ In nid (live w).
+Proof.
+  intros [A B C D E F] (Hn & Hl & Hv & Hb & Hd & _).
+  assert (~ In nid (live w)) as Hfresh by (intros Hin; apply C in Hin; lia).
+  split; [|exact Hfresh]. split; rewrite ?Hl, ?Hv, ?Hb, ?Hd; auto.
+  - constructor; auto.
+  - intros id [<-|Hin]; rewrite len_app, len_cons, len_nil; [lia|]. apply C in Hin. lia.
+  - intros id Hin [<-|Hc]; [apply F in Hin; lia | now apply (E id)].
+  - intros id Hin. rewrite len_app. apply F in Hin. lia.
+Qed.
+
+Lemma WInv_died w w' id : WInv w -> In id (live w) -> wdied w w' id -> WInv w'.
+Proof.
+  intros [A B C D E F] Hin (Hl & Hv & Hb & Hd & _).
+  split; rewrite ?Hl, ?Hv, ?Hb, ?Hd; auto.
+  - eapply subm_NoDup; [|exact B]. intros y. rewrite (cnt_remove1 id (live w) y Hin). lia.
+  - intros y Hy. apply C. eapply remove1_In_weak; eauto.
+  - constructor; auto. intros Hc. now apply (E id).
+  - intros y [<-|Hy] Hc.
+    + apply (remove1_In_nd id id (live w) B Hin) in Hc. tauto.
+    + apply remove1_In_weak in Hc. now apply (E y).
+  - intros y [<-|Hy]; auto.
+Qed.
+
+(** ** callbacks *)
+Ltac wfields := cbn [live vals cbs pan log badw wa wf wr_ unw set_badw set_unw add_log ev_alloc ev_free ev_realloc drop_ids fst snd].
+
+Lemma cb_clone_spec w src x :
+  match cb_clone w src x with
+  | Done nid w' => wborn w w' nid x
+  | Pan w' => wsame w w'
+  end.
+Proof.
+  unfold cb_clone, tick, fresh. destruct (match pan w with Some k => _ | None => false end); wfields;
+    unfold wborn, wsame; wfields; repeat split; reflexivity.
+Qed.
+Lemma cb_next_spec w x :
+  match cb_next w x with
+  | Done nid w' => wborn w w' nid x
+  | Pan w' => wsame w w'
+  end.
+Proof.
+  unfold cb_next, tick, fresh. destruct (match pan w with Some k => _ | None => false end); wfields;
+    unfold wborn, wsame; wfields; repeat split; reflexivity.
+Qed.
+Lemma cb_make_spec w x :
+  match cb_make w x with
+  | Done nid w' => wborn w w' nid x
+  | Pan w' => wsame w w'
+  end.
+Proof.
+  unfold cb_make, tick, fresh. destruct (match pan w with Some k => _ | None => false end); wfields;
+    unfold wborn, wsame; wfields; repeat split; reflexivity.
+Qed.
+Lemma cb_pred_spec w id r :
+  match cb_pred w id r with
+  | Done r' w' => r' = r /\ wsame w w'
+  | Pan w' => wsame w w'
+  end.
+Proof.
+  unfold cb_pred, tick. destruct (match pan w with Some k => _ | None => false end); wfields;
+    unfold wsame; wfields; repeat split; reflexivity.
+Qed.
+Lemma fresh_spec w x : wborn w (snd (fresh w x)) (fst (fresh w x)) x.
+Proof. unfold fresh, wborn; wfields. repeat split; reflexivity. Qed.
+
+Lemma cb_drop_spec w id : In id (live w) -> wdied w (resw (cb_drop w id)) id.
+Proof.
+  intros Hin. unfold cb_drop, tick. wfields. apply mem_In in Hin. rewrite Hin.
+  destruct (match pan w with Some k => _ | None => false end); unfold resw, wdied; wfields; repeat split; reflexivity.
+Qed.
+
+(** without an injected panic the callbacks succeed *)
+Lemma cb_clone_np w src x : pan w = None -> exists w', cb_clone w src x = Done (len (vals w)) w'.
+Proof. intros H. unfold cb_clone, tick, fresh. rewrite H. wfields. eexists; reflexivity. Qed.
+Lemma cb_next_np w x : pan w = None -> exists w', cb_next w x = Done (len (vals w)) w'.
+Proof. intros H. unfold cb_next, tick, fresh. rewrite H. wfields. eexists; reflexivity. Qed.
+Lemma cb_make_np w x : pan w = None -> exists w', cb_make w x = Done (len (vals w)) w'.
+Proof. intros H. unfold cb_make, tick, fresh. rewrite H. wfields. eexists; reflexivity. Qed.
+Lemma cb_pred_np w id r : pan w = None -> exists w', cb_pred w id r = Done r w'.
+Proof. intros H. unfold cb_pred, tick. rewrite H. eexists; reflexivity. Qed.
+Lemma cb_drop_np w id : pan w = None -> exists w', cb_drop w id = Done tt w'.
+Proof. intros H. unfold cb_drop, tick. rewrite H. eexists; reflexivity. Qed.
+
+(** ** ownership: the identities in [L] are pairwise distinct and alive in a good world *)
+Definition own (w : world) (L : list N) : Prop := WInv w /\ NoDup L /\ incl L (live w).
+
+Lemma own_sub w L L' : own w L -> subm L' L -> own w L'.
+Proof.
+  intros (Hw & Hn & Hi) Hs. split; [exact Hw|]. split; [eapply subm_NoDup; eauto|].
+  intros x Hx. apply Hi. eapply subm_incl; eauto.
+Qed.
+Lemma own_same w w' L : own w L -> wsame w w' -> own w' L.
+Proof.
+  intros (Hw & Hn & Hi) Hs. split; [eapply WInv_same; eauto|]. split; [exact Hn|].
+  destruct Hs as (Hl & _). now rewrite Hl.
+Qed.
+Lemma own_born w w' nid x L : own w L -> wborn w w' nid x -> own w' (nid :: L).
+Proof.
+  intros (Hw & Hn & Hi) Hb. destruct (WInv_born _ _ _ _ Hw Hb) as [Hw' Hf].
+  destruct Hb as (_ & Hl & _). split; [exact Hw'|]. split.
+  - constructor; auto.
+  - rewrite Hl. intros y [<-|Hy]; [now left | right; auto].
+Qed.
+Lemma own_died w w' id L : own w (id :: L) -> wdied w w' id -> own w' L.
+Proof.
+  intros (Hw & Hn & Hi) Hd. assert (In id (live w)) as Hin by (apply Hi; now left).
+  split; [eapply WInv_died; eauto|]. inversion Hn as [|? ? Hni Hn']; subst. split; [exact Hn'|].
+  destruct Hd as (Hl & _). rewrite Hl. intros y Hy.
+  apply (remove1_In_nd id y (live w) (wi_nd _ Hw) Hin). split; [apply Hi; now right | congruence].
+Qed.
+Lemma own_drop w id L : own w (id :: L) -> own (resw (cb_drop w id)) L.
+Proof. intros H. eapply own_died; [exact H|]. apply cb_drop_spec. destruct H as (_ & _ & Hi). apply Hi. now left. Qed.
+Lemma own_In w L x : own w L -> In x L -> In x (live w).
+Proof. intros (_ & _ & Hi). apply Hi. Qed.
+Lemma own_WInv w L : own w L -> WInv w.
+Proof. now intros (H & _). Qed.
+Lemma own_fresh_notin w L : own w L -> ~ In (len (vals w)) L.
+Proof. intros (Hw & _ & Hi) Hin. apply Hi in Hin. apply (wi_fresh _ Hw) in Hin. lia. Qed.
+
+(** ** drop_slots *)
+Lemma own_drop_slots st : forall G w pk L, own w (G ++ L) -> own (resw (drop_slots st w (map E G) pk)) L.
+Proof.
+  induction G as [|g G IH]; intros w pk L H; cbn [map drop_slots app] in *.
+  - destruct pk; exact H.
+  - pose proof (own_drop w g (G ++ L) H) as H1.
+    destruct (cb_drop w g) as [[] w1|w1]; cbn [resw] in H1.
+    + now apply IH.
+    + destruct st; [|now apply IH]. cbn [resw]. eapply own_sub; [exact H1|]. intros x. cnt_norm. lia.
+Qed.
+
+Lemma drop_slots_np st : forall G w pk, pan w = None -> subm G (live w) ->
+  exists w', drop_slots st w (map E G) pk = (if pk then Pan w' else Done tt w')
+    /\ vals w' = vals w /\ pan w' = None /\ wa w' = wa w /\ wf w' = wf w /\ badw w' = badw w
+    /\ (forall x, cnt (live w) x = cnt G x + cnt (live w') x).
+Proof.
+  induction G as [|g G IH]; intros w pk Hp Hs; cbn [map drop_slots].
+  - exists w. repeat split; auto.
+  - assert (In g (live w)) as Hg.
+    { apply cnt_In. specialize (Hs g). rewrite (cnt_cons g G), cnt_one_eq in Hs. lia. }
+    destruct (cb_drop_np w g Hp) as [w1 E1]. pose proof (cb_drop_spec w g Hg) as Hd. rewrite E1 in *. cbn [resw] in Hd.
+    destruct Hd as (Hl & Hv & Hb & _ & Hp1 & Ha & Hf).
+    assert (forall x, cnt (live w) x = cnt [g] x + cnt (live w1) x) as Hc.
+    { intros x. rewrite Hl. now apply cnt_remove1. }
+    destruct (IH w1 pk) as (w' & E' & Hv' & Hp' & Ha' & Hf' & Hb' & Hc').
+    { congruence. }
+    { intros x. specialize (Hs x). specialize (Hc x). rewrite (cnt_cons g G) in Hs. lia. }
+    exists w'. split; [exact E'|]. repeat split; try congruence.
+    intros x. rewrite (cnt_cons g G), (Hc x), (Hc' x). lia.
+Qed.
+
+(** ** slots *)
+Lemma idents_app l1 l2 : idents (l1 ++ l2) = idents l1 ++ idents l2.
+Proof. unfold idents. apply flat_map_app. Qed.
+Lemma idents_map_E ids : idents (map E ids) = ids.
+Proof. induction ids as [|x r IH]; cbn [map idents flat_map app] in *; auto. f_equal. exact IH. Qed.
+Lemma idents_length_le l : length (idents l) <= length l.
+Proof. induction l as [|s r IH]; [cbn; lia|]. destruct s; cbn [idents flat_map app length] in *; fold (idents r) in *; lia. Qed.
+Lemma idents_full l : length (idents l) = length l -> l = map E (idents l).
+Proof.
+  induction l as [|s r IH]; [reflexivity|]. destruct s as [|x]; cbn [idents flat_map app length map]; fold (idents r).
+  - pose proof (idents_length_le r). lia.
+  - intros H. f_equal. apply IH. lia.
+Qed.
+Lemma nth_map_E ids j : j < length ids -> nth j (map E ids) U = E (nth j ids 0%N).
+Proof. intros H. rewrite (nth_indep _ U (E 0%N)) by (now rewrite map_length). apply map_nth. Qed.
+
+(** the vector's initialised prefix is well formed *)
+Definition vsound (v : vec) : Prop := vlen v <= vcapn v /\ length (elems v) = vlen v.
+
+Lemma vec_sound_vsound k v : vec_sound k v -> vsound v.
+Proof. unfold vec_sound, vsound. tauto. Qed.
+
+Lemma vsound_prefix v : vsound v -> firstn (vlen v) (slots v) = map E (elems v).
+Proof.
+  intros [Hl He]. unfold elems in *. apply idents_full. rewrite He, firstn_length. unfold vcapn in Hl. lia.
+Qed.
+
+Lemma rd_elems v j : vsound v -> j < vlen v -> rd v j = E (nth j (elems v) 0%N).
+Proof.
+  intros Hs Hj. unfold rd. rewrite <- (nth_firstn' (slots v) (vlen v)) by exact Hj.
+  rewrite vsound_prefix by exact Hs. apply nth_map_E. destruct Hs as [_ He]. lia.
+Qed.
+
+Lemma elems_ext v l : vlen v <= vcapn v -> length l = vlen v ->
+  (forall j, j < vlen v -> rd v j = E (nth j l 0%N)) -> elems v = l.
+Proof.
+  intros Hc Hl Hj. unfold elems. assert (firstn (vlen v) (slots v) = map E l) as ->; [|apply idents_map_E].
+  apply list_ext with (d := U).
+  - rewrite firstn_length, map_length. unfold vcapn in Hc. lia.
+  - intros j Hlt. rewrite firstn_length in Hlt. assert (j < vlen v) as Hj' by lia.
+    rewrite nth_firstn' by exact Hj'. rewrite nth_map_E by lia. now apply Hj.
+Qed.
+
+Lemma vsound_ext v l : vlen v <= vcapn v -> length l = vlen v ->
+  (forall j, j < vlen v -> rd v j = E (nth j l 0%N)) -> vsound v /\ elems v = l.
+Proof. intros Hc Hl Hj. pose proof (elems_ext v l Hc Hl Hj) as He. split; [|exact He]. split; [exact Hc|congruence]. Qed.
+
+Lemma rd_mk sl n j : rd (mkV sl n) j = nth j sl U.
+Proof. reflexivity. Qed.
+
+Lemma wr_ok w v i s : i < vcapn v -> wr w v i s = (w, mkV (updn (slots v) i s) (vlen v)).
+Proof. intros H. unfold wr. apply Nat.ltb_lt in H. now rewrite H. Qed.
+Lemma setlen_ok w v n : n <= vcapn v -> setlen w v n = (w, mkV (slots v) n).
+Proof. intros H. unfold setlen. apply Nat.leb_le in H. now rewrite H. Qed.
+
+Fixpoint wrl (sl : list slot) (i : nat) (l : list slot) : list slot :=
+  match l with [] => sl | s :: r => wrl (updn sl i s) (S i) r end.
+
+Lemma wrl_length : forall l sl i, length (wrl sl i l) = length sl.
+Proof. induction l as [|s r IH]; intros sl i; cbn [wrl]; auto. now rewrite IH, updn_length. Qed.
+
+Lemma write_slots_ok : forall l w v i, i + length l <= vcapn v ->
+  write_slots w v i l = (w, mkV (wrl (slots v) i l) (vlen v)).
+Proof.
+  induction l as [|s r IH]; intros w v i H; cbn [write_slots wrl length] in *.
+  - now destruct v.
+  - rewrite wr_ok by lia. rewrite IH by (unfold vcapn in *; cbn [slots]; rewrite updn_length; lia). reflexivity.
+Qed.
+
+Lemma nth_wrl : forall l sl i j, i + length l <= length sl ->
+  nth j (wrl sl i l) U = if Nat.leb i j && Nat.ltb j (i + length l) then nth (j - i) l U else nth j sl U.
+Proof.
+  induction l as [|s r IH]; intros sl i j H; cbn [wrl length] in *.
+  - destruct (Nat.leb i j) eqn:E1, (Nat.ltb j (i + 0)) eqn:E2; cbn [andb]; auto.
+    apply Nat.leb_le in E1. apply Nat.ltb_lt in E2. lia.
+  - rewrite IH by (rewrite updn_length; lia).
+    destruct (Nat.leb (S i) j) eqn:E1, (Nat.ltb j (S i + length r)) eqn:E2; cbn [andb];
+      destruct (Nat.leb i j) eqn:E3, (Nat.ltb j (i + S (length r))) eqn:E4; cbn [andb];
+      try apply Nat.leb_le in E1; try apply Nat.leb_gt in E1; try apply Nat.ltb_lt in E2; try apply Nat.ltb_ge in E2;
+      try apply Nat.leb_le in E3; try apply Nat.leb_gt in E3; try apply Nat.ltb_lt in E4; try apply Nat.ltb_ge in E4; try lia.
+    + replace (j - i) with (S (j - S i)) by lia. reflexivity.
+    + apply nth_updn_ne. lia.
+    + assert (j = i) as -> by lia. rewrite Nat.sub_diag. cbn [nth]. apply nth_updn_eq. lia.
+    + apply nth_updn_ne. lia.
+Qed.
+
+Lemma slots_from_length v i n : length (slots_from v i n) = n.
+Proof. revert i; induction n as [|n IH]; intros i; cbn [slots_from length]; auto. Qed.
+Lemma nth_slots_from v : forall n i j, j < n -> nth j (slots_from v i n) U = rd v (i + j).
+Proof.
+  induction n as [|n IH]; intros i j H; [lia|]. cbn [slots_from]. destruct j as [|j]; cbn [nth].
+  - now rewrite Nat.add_0_r.
+  - rewrite IH by lia. f_equal. lia.
+Qed.
+Lemma slots_from_ext v v' i n : slots v' = slots v -> slots_from v' i n = slots_from v i n.
+Proof. intros H. revert i; induction n as [|n IH]; intros i; cbn [slots_from]; auto. unfold rd. rewrite H. f_equal. apply IH. Qed.
+
+Lemma slots_from_sound v i n : vsound v -> i + n <= vlen v ->
+  slots_from v i n = map E (firstn n (skipn i (elems v))).
+Proof.
+  intros Hs H. destruct Hs as [Hc He]. apply list_ext with (d := U).
+  - rewrite slots_from_length, map_length, firstn_length, skipn_length. lia.
+  - rewrite slots_from_length. intros j Hj. rewrite nth_slots_from by exact Hj.
+    rewrite nth_map_E by (rewrite firstn_length, skipn_length; lia).
+    rewrite nth_firstn' by exact Hj. rewrite nth_skipn'. apply rd_elems; [split; assumption | lia].
+Qed.
+
+Lemma take_slot_ok w v i id : rd v i = E id -> take_slot w v i = (w, id).
+Proof. intros H. unfold take_slot. now rewrite H. Qed.
+
+Lemma take_ids_ok w v : forall n i ids, slots_from v i n = map E ids -> take_ids w v i n = (w, ids).
+Proof.
+  induction n as [|n IH]; intros i ids H; cbn [slots_from take_ids] in *.
+  - destruct ids; [reflexivity|discriminate].
+  - destruct ids as [|x ids]; [discriminate|]. cbn [map] in H. injection H as H1 H2.
+    rewrite (take_slot_ok w v i x H1). rewrite (IH (S i) ids H2). reflexivity.
+Qed.
+
+Lemma take_ids_back_ok w v : forall n i ids, n <= i -> slots_from v (i - n) n = map E ids ->
+  take_ids_back w v i n = (w, rev ids).
+Proof.
+  induction n as [|n IH]; intros i ids Hle H; cbn [take_ids_back].
+  - cbn [slots_from] in H. destruct ids; [reflexivity|discriminate].
+  - assert (length ids = S n) as Hlen by (rewrite <- (map_length E ids), <- H; apply slots_from_length).
+    assert (rd v (i - 1) = E (nth n ids 0%N)) as Hr.
+    { rewrite <- nth_map_E by lia. rewrite <- H. rewrite nth_slots_from by lia. f_equal. lia. }
+    rewrite (take_slot_ok w v (i - 1) _ Hr).
+    rewrite (IH (i - 1) (firstn n ids)); [|lia|].
+    + f_equal. assert (skipn n ids = [nth n ids 0%N]) as Hsk; [|rewrite <- (firstn_skipn n ids) at 3; rewrite rev_app_distr, Hsk; reflexivity].
+      apply list_ext with (d := 0%N); [rewrite skipn_length; cbn [length]; lia|].
+      intros j Hj. rewrite skipn_length in Hj. assert (j = 0) as -> by lia. rewrite nth_skipn'. cbn [nth]. f_equal. lia.
+    + apply list_ext with (d := U); [rewrite slots_from_length, map_length, firstn_length; lia|].
+      rewrite slots_from_length. intros j Hj. rewrite nth_slots_from by exact Hj.
+      rewrite nth_map_E by (rewrite firstn_length; lia). rewrite nth_firstn' by exact Hj.
+      rewrite <- nth_map_E by lia. rewrite <- H. rewrite nth_slots_from by lia. f_equal. lia.
+Qed.
+
+(** elements after a change of length / a write above the length *)
+Lemma elems_mk_le v n : vsound v -> n <= vlen v -> elems (mkV (slots v) n) = firstn n (elems v) /\ vsound (mkV (slots v) n).
+Proof.
+  intros Hs Hn. destruct (vsound_ext (mkV (slots v) n) (firstn n (elems v))) as [A B].
+  - destruct Hs as [Hc _]. unfold vcapn in *. cbn [slots vlen]. lia.
+  - destruct Hs as [_ He]. cbn [vlen]. rewrite firstn_length. lia.
+  - cbn [vlen]. intros j Hj. rewrite nth_firstn' by exact Hj. change (rd (mkV (slots v) n) j) with (rd v j). apply rd_elems; [exact Hs|lia].
+  - tauto.
+Qed.
+
+Lemma elems_same_prefix v v' : vlen v' = vlen v -> firstn (vlen v) (slots v') = firstn (vlen v) (slots v) -> elems v' = elems v.
+Proof. intros Hl Hf. unfold elems. now rewrite Hl, Hf. Qed.
+
+Lemma elems_wr_ge v i s : vlen v <= i -> elems (mkV (updn (slots v) i s) (vlen v)) = elems v.
+Proof. intros H. apply elems_same_prefix; cbn [vlen slots]; auto. now apply firstn_updn_ge. Qed.
+
+(** push: write at the length, bump the length *)
+Definition pushv (v : vec) (id : N) : vec := mkV (updn (slots v) (vlen v) (E id)) (S (vlen v)).
+
+Lemma pushv_spec v id : vsound v -> vlen v < vcapn v ->
+  vsound (pushv v id) /\ elems (pushv v id) = elems v ++ [id] /\ vcapn (pushv v id) = vcapn v /\ vlen (pushv v id) = S (vlen v).
+Proof.
+  intros Hs Hlt. assert (vcapn (pushv v id) = vcapn v) as Hc by (unfold vcapn, pushv; cbn [slots]; apply updn_length).
+  destruct (vsound_ext (pushv v id) (elems v ++ [id])) as [A B].
+  - rewrite Hc. cbn [pushv vlen]. lia.
+  - destruct Hs as [_ He]. rewrite app_length, He. cbn [length pushv vlen]. lia.
+  - cbn [pushv vlen]. intros j Hj. unfold rd. cbn [pushv slots]. rewrite nth_updn by (unfold vcapn in Hlt; lia).
+    rewrite nth_app'. destruct Hs as [Hc' He]. rewrite He.
+    destruct (Nat.eqb j (vlen v)) eqn:E1.
+    + apply Nat.eqb_eq in E1. subst j. rewrite (proj2 (Nat.ltb_ge _ _)) by lia. now rewrite Nat.sub_diag.
+    + apply Nat.eqb_neq in E1. rewrite (proj2 (Nat.ltb_lt _ _)) by lia. apply rd_elems; [split; assumption|lia].
+  - split; [exact A|]. split; [exact B|]. split; [exact Hc|reflexivity].
+Qed.
+
+Lemma push_steps w v id : vlen v < vcapn v ->
+  (let '(w1, v1) := wr w v (vlen v) (E id) in setlen w1 v1 (S (vlen v))) = (w, pushv v id).
+Proof.
+  intros H. rewrite wr_ok by exact H. rewrite setlen_ok; [reflexivity|]. unfold vcapn in *. cbn [slots]. rewrite updn_length. lia.
+Qed.
+
+(** ** capacity changes *)
+Lemma new_vec_spec c : vsound (new_vec c) /\ elems (new_vec c) = [] /\ vcapn (new_vec c) = c /\ vlen (new_vec c) = 0.
+Proof.
+  unfold new_vec, vsound, elems, vcapn. cbn [slots vlen firstn idents flat_map length]. rewrite repeat_length. repeat split; lia.
+Qed.
+
+Lemma set_cap_spec w v c w' v' : vsound v -> vlen v <= c -> set_cap w v c = (w', v') ->
+  wsame w w' /\ vcapn v' = c /\ vlen v' = vlen v /\ elems v' = elems v /\ vsound v'.
+Proof.
+  intros Hs Hc. unfold set_cap. destruct (Nat.eqb c (vcapn v)) eqn:E; intros H; injection H as <- <-.
+  - apply Nat.eqb_eq in E. split; [apply wsame_refl|]. split; [auto|]. split; [reflexivity|]. split; [reflexivity|exact Hs].
+  - assert (elems (mkV (firstn c (slots v) ++ repeat U (c - vcapn v)) (vlen v)) = elems v) as He.
+    { apply elems_same_prefix; cbn [vlen slots]; auto.
+      rewrite firstn_app, firstn_firstn. rewrite firstn_length. destruct Hs as [Hl _]. unfold vcapn in Hl.
+      replace (Nat.min (vlen v) c) with (vlen v) by lia. replace (vlen v - Nat.min c (length (slots v))) with 0 by lia.
+      cbn [firstn]. apply app_nil_r. }
+    assert (vcapn (mkV (firstn c (slots v) ++ repeat U (c - vcapn v)) (vlen v)) = c) as Hcap.
+    { unfold vcapn. cbn [slots]. rewrite app_length, firstn_length, repeat_length. lia. }
+    split; [unfold wsame, ev_realloc; wfields; repeat split; reflexivity|].
+    split; [exact Hcap|]. split; [reflexivity|]. split; [exact He|].
+    split; [rewrite Hcap; cbn [vlen]; exact Hc | rewrite He; cbn [vlen]; apply Hs].
+Qed.
+
+Lemma thin_reserve_spec w v add w' v' : vsound v -> thin_reserve w v add = (w', v') ->
+  wsame w w' /\ vlen v + add <= vcapn v' /\ vcapn v <= vcapn v' /\ vlen v' = vlen v /\ elems v' = elems v /\ vsound v'.
+Proof.
+  intros Hs. unfold thin_reserve. destruct (Nat.ltb (vcapn v - vlen v) add) eqn:E.
+  - intros H. apply set_cap_spec in H; [|exact Hs|lia]. destruct H as (A & B & C & D & F).
+    split; [exact A|]. split; [lia|]. split; [lia|]. split; [exact C|]. split; [exact D|exact F].
+  - intros H. injection H as <- <-. apply Nat.ltb_ge in E. pose proof Hs as [Hl He].
+    split; [apply wsame_refl|]. split; [lia|]. split; [lia|]. split; [reflexivity|]. split; [reflexivity|exact Hs].
+Qed.
+
+Lemma thin_reserve_exact_spec w v add w' v' : vsound v -> thin_reserve_exact w v add = (w', v') ->
+  wsame w w' /\ vlen v + add <= vcapn v' /\ vlen v' = vlen v /\ elems v' = elems v /\ vsound v'.
+Proof.
+  intros Hs. unfold thin_reserve_exact. destruct (Nat.ltb (vcapn v - vlen v) add) eqn:E.
+  - intros H. apply set_cap_spec in H; [|exact Hs|lia]. destruct H as (A & B & C & D & F).
+    split; [exact A|]. split; [lia|]. split; [exact C|]. split; [exact D|exact F].
+  - intros H. injection H as <- <-. apply Nat.ltb_ge in E. pose proof Hs as [Hl He].
+    split; [apply wsame_refl|]. split; [lia|]. split; [reflexivity|]. split; [reflexivity|exact Hs].
+Qed.
+
+(** ** the pool *)
+Definition oelems (o : option vec) : list N := match o with Some v => elems v | None => [] end.
+Definition pelems (p : list (option vec)) : list N := flat_map elems (pool_vecs p).
+
+Lemma pelems_cons o p : pelems (o :: p) = oelems o ++ pelems p.
+Proof. unfold pelems, pool_vecs. destruct o; cbn [flat_map oelems app]; rewrite ?app_nil_r; reflexivity. Qed.
+Lemma pelems_app p q : pelems (p ++ q) = pelems p ++ pelems q.
+Proof. unfold pelems, pool_vecs. now rewrite !flat_map_app. Qed.
+Lemma reachable_eq s : reachable s = pelems (pool s) ++ handed s.
+Proof. reflexivity. Qed.
+
+Lemma cnt_pelems_updn : forall p i o0 o x, nth_error p i = Some o0 ->
+  cnt (pelems (updn p i o)) x + cnt (oelems o0) x = cnt (pelems p) x + cnt (oelems o) x.
+Proof.
+  induction p as [|a p IH]; intros [|i] o0 o x H; cbn [nth_error updn] in *; try discriminate.
+  - injection H as ->. rewrite !pelems_cons, !count_occ_app. lia.
+  - rewrite !pelems_cons, !count_occ_app. specialize (IH i o0 o x H). lia.
+Qed.
+
+Lemma getv_nth s i v : getv s i = Some v <-> nth_error (pool s) (N.to_nat i) = Some (Some v).
+Proof. unfold getv. destruct (nth_error (pool s) (N.to_nat i)) as [[u|]|]; split; intros H; try discriminate; congruence. Qed.
+Lemma getv_lt s i v : getv s i = Some v -> N.to_nat i < length (pool s).
+Proof. intros H. apply getv_nth in H. apply nth_error_Some. congruence. Qed.
+
+Lemma getv_setv_eq s i o w : N.to_nat i < length (pool s) -> getv (setv s i o w) i = o.
+Proof. intros H. unfold getv, setv. cbn [pool]. rewrite nth_error_updn_eq by exact H. now destruct o. Qed.
+Lemma getv_setv_ne s i j o w : i <> j -> getv (setv s i o w) j = getv s j.
+Proof. intros H. unfold getv, setv. cbn [pool]. rewrite nth_error_updn_ne by lia. reflexivity. Qed.
+Lemma getv_hand s h j : getv (hand s h) j = getv s j.
+Proof. reflexivity. Qed.
+Lemma getv_setw s w j : getv (setw s w) j = getv s j.
+Proof. reflexivity. Qed.
+Lemma getv_addv s v w j : getv (fst (addv s v w)) j = if N.eqb j (len (pool s)) then Some v else getv s j.
+Proof.
+  unfold getv, addv. cbn [fst pool]. destruct (N.eqb j (len (pool s))) eqn:E.
+  - apply N.eqb_eq in E. subst j. unfold len. rewrite Nat2N.id. rewrite nth_error_app2 by lia. now rewrite Nat.sub_diag.
+  - apply N.eqb_neq in E. destruct (Nat.lt_ge_cases (N.to_nat j) (length (pool s))) as [Hlt|Hge].
+    + now rewrite nth_error_app1 by exact Hlt.
+    + assert (nth_error (pool s) (N.to_nat j) = None) as -> by (apply nth_error_None; lia).
+      assert (nth_error (pool s ++ [Some v]) (N.to_nat j) = None) as ->; [|reflexivity].
+      apply nth_error_None. rewrite app_length. cbn [length]. unfold len in E. lia.
+Qed.
+
+(** what the other vectors and the caller own *)
+Lemma reach_setv s i o0 o w h x : nth_error (pool s) (N.to_nat i) = Some o0 ->
+  cnt (reachable (hand (setv s i o w) h)) x + cnt (oelems o0) x = cnt (reachable s) x + cnt (oelems o) x + cnt h x.
+Proof.
+  intros H. unfold reachable, hand, setv. cbn [pool handed]. fold (pelems (updn (pool s) (N.to_nat i) o)). fold (pelems (pool s)).
+  rewrite !count_occ_app. pose proof (cnt_pelems_updn (pool s) (N.to_nat i) o0 o x H). lia.
+Qed.
+Lemma reach_addv s v w x : cnt (reachable (fst (addv s v w))) x = cnt (reachable s) x + cnt (elems v) x.
+Proof.
+  unfold reachable, addv. cbn [fst pool handed]. fold (pelems (pool s ++ [Some v])). fold (pelems (pool s)).
+  rewrite pelems_app, !count_occ_app. change (pelems [Some v]) with (elems v ++ []). rewrite app_nil_r. lia.
+Qed.
+Lemma reach_setw s w : reachable (setw s w) = reachable s.
+Proof. reflexivity. Qed.
+
+(** ** the invariant, split into a world part and an ownership part *)
+Definition DFresh (s : vstate) : Prop := forall id, In id (drop_ids (log (wd s))) -> (id < len (vals (wd s)))%N.
+Definition VInv' (k : kind) (s : vstate) : Prop := VInv k s /\ DFresh s.
+(** everything but [unw] *)
+Definition VInvU (k : kind) (s : vstate) : Prop :=
+  (forall i v, getv s i = Some v -> vec_sound k v) /\ own (wd s) (reachable s).
+
+Lemma VInv'_iff k s : VInv' k s <-> VInvU k s /\ unw (wd s) = false.
+Proof.
+  split.
+  - intros [[A B C D E F G [H1 H2]] I]. split; [|exact G]. split; [exact B|]. split; [|split; assumption]. split; assumption.
+  - intros [[B [[A E F H1 H2 I] [C D]]] G]. split; [split; auto | exact I].
+Qed.
+
+Lemma VInvU_setw_unw k s b : VInvU k s -> VInvU k (setw s (set_unw (wd s) b)).
+Proof. intros [A B]. split; [exact A|]. eapply own_same; [exact B|]. unfold wsame; wfields. cbn [wd setw]. repeat split; reflexivity. Qed.
+
+Lemma VInvU_setw k s w : VInvU k s -> own w (reachable s) -> VInvU k (setw s w).
+Proof. intros [A _] H. split; [exact A | exact H]. Qed.
+
+Lemma VInvU_upd k s s' i v o h L : VInvU k s -> getv s i = Some v ->
+  pool s' = updn (pool s) (N.to_nat i) o -> (forall x, cnt (handed s') x = cnt (handed s) x + cnt h x) ->
+  (forall v', o = Some v' -> vec_sound k v') -> own (wd s') L ->
+  (forall x, cnt (oelems o) x + cnt h x + cnt (reachable s) x <= cnt L x + cnt (elems v) x) ->
+  VInvU k s'.
+Proof.
+  intros [A _] Hg Hp Hh Hv Ho Hc. split.
+  - intros j u. unfold getv. rewrite Hp. destruct (N.eq_dec i j) as [<-|Hne].
+    + rewrite nth_error_updn_eq by (eapply getv_lt; eauto). destruct o as [v'|]; [|discriminate]. intros H. injection H as <-. now apply Hv.
+    + rewrite nth_error_updn_ne by lia. apply A.
+  - eapply own_sub; [exact Ho|]. intros x.
+    pose proof (cnt_pelems_updn (pool s) (N.to_nat i) (Some v) o x (proj1 (getv_nth _ _ _) Hg)) as H.
+    change (oelems (Some v)) with (elems v) in H. specialize (Hc x). specialize (Hh x).
+    unfold reachable in *. rewrite Hp. fold (pelems (updn (pool s) (N.to_nat i) o)). fold (pelems (pool s)) in Hc.
+    rewrite count_occ_app in *. lia.
+Qed.
+
+Lemma VInvU_setv k s i v o h w L : VInvU k s -> getv s i = Some v ->
+  (forall v', o = Some v' -> vec_sound k v') -> own w L ->
+  (forall x, cnt (oelems o) x + cnt h x + cnt (reachable s) x <= cnt L x + cnt (elems v) x) ->
+  VInvU k (hand (setv s i o w) h).
+Proof.
+  intros HI Hg Hv Ho Hc. apply (VInvU_upd k s (hand (setv s i o w) h) i v o h L HI Hg); [reflexivity | | exact Hv | exact Ho | exact Hc].
+  intros x. cbn [handed hand setv]. now rewrite count_occ_app.
+Qed.
+
+Lemma VInvU_setv0 k s i v o w L : VInvU k s -> getv s i = Some v ->
+  (forall v', o = Some v' -> vec_sound k v') -> own w L ->
+  (forall x, cnt (oelems o) x + cnt (reachable s) x <= cnt L x + cnt (elems v) x) ->
+  VInvU k (setv s i o w).
+Proof.
+  intros HI Hg Hv Ho Hc. apply (VInvU_upd k s (setv s i o w) i v o [] L HI Hg); [reflexivity | | exact Hv | exact Ho | ].
+  - intros x. cbn [handed setv]. rewrite cnt_nil. lia.
+  - intros x. rewrite cnt_nil. specialize (Hc x). lia.
+Qed.
+
+Lemma VInvU_addv k s v w L : VInvU k s -> vec_sound k v -> own w L ->
+  (forall x, cnt (elems v) x + cnt (reachable s) x <= cnt L x) -> VInvU k (fst (addv s v w)).
+Proof.
+  intros [A _] Hv Ho Hc. split.
+  - intros j u. rewrite getv_addv. destruct (N.eqb j (len (pool s))); [intros H; injection H as <-; exact Hv | apply A].
+  - change (wd (fst (addv s v w))) with w. eapply own_sub; [exact Ho|]. intros x. rewrite (reach_addv s v w x). specialize (Hc x). lia.
+Qed.
+
+Lemma VInvU_open k s i v : VInvU k s -> getv s i = Some v ->
+  vec_sound k v /\ exists R, own (wd s) (elems v ++ R) /\ forall x, cnt (reachable s) x = cnt (elems v) x + cnt R x.
+Proof.
+  intros [A B] Hg. split; [eapply A; eauto|].
+  exists (pelems (updn (pool s) (N.to_nat i) None) ++ handed s).
+  assert (forall x, cnt (reachable s) x = cnt (elems v) x + cnt (pelems (updn (pool s) (N.to_nat i) None) ++ handed s) x) as Hc.
+  { intros x. pose proof (cnt_pelems_updn (pool s) (N.to_nat i) (Some v) None x (proj1 (getv_nth _ _ _) Hg)) as H.
+    unfold reachable. fold (pelems (pool s)). rewrite !count_occ_app. cbn [oelems] in H. rewrite cnt_nil in H. lia. }
+  split; [|exact Hc]. eapply own_sub; [exact B|]. intros x. rewrite count_occ_app, (Hc x). lia.
+Qed.
+
+Lemma vec_sound_intro k v : vsound v -> match k with KInline c => vcapn v = c | KThin => True end -> vec_sound k v.
+Proof. unfold vec_sound, vsound. tauto. Qed.
+Lemma vec_sound_cap c v : vec_sound (KInline c) v -> vcapn v = c.
+Proof. unfold vec_sound. tauto. Qed.
+Lemma vec_sound_same_cap k v v' : vec_sound k v -> vsound v' -> vcapn v' = vcapn v -> vec_sound k v'.
+Proof. intros (A & B & C) Hs Hc. apply vec_sound_intro; [exact Hs|]. destruct k; auto. congruence. Qed.
+
+Lemma own_set_unw w b L : own w L -> own (set_unw w b) L.
+Proof. intros H. eapply own_same; [exact H|]. unfold wsame; wfields. repeat split; reflexivity. Qed.
+
+Lemma firstn_snoc_nth {A} (l : list A) n d : n < length l -> firstn (S n) l = firstn n l ++ [nth n l d].
+Proof.
+  revert n; induction l as [|y l IH]; intros [|n] H; cbn [length firstn nth app] in *; try lia; auto. f_equal. apply IH. lia.
+Qed.
+Lemma cnt_nth_split (l : list N) i x : i < length l ->
+  cnt l x = cnt (firstn i l) x + cnt [nth i l 0%N] x + cnt (skipn (S i) l) x.
+Proof.
+  intros H. rewrite (cnt_firstn_skipn l (S i) x). rewrite (firstn_snoc_nth l i 0%N H), count_occ_app. lia.
 Qed.
